@@ -253,6 +253,11 @@ class SigmaExtendedCorrelationCondition:
                 f"Failed to parse extended condition expression: {str(e)}",
                 source=self.source,
             )
+        except RecursionError:
+            raise sigma_exceptions.SigmaCorrelationConditionError(
+                "Failed to parse extended condition expression: nesting too deep",
+                source=self.source,
+            )
 
     @classmethod
     def parse(cls, expression: str) -> CorrelationConditionItem | SigmaRuleReference:
